@@ -321,6 +321,34 @@ def f_unknown_lookalike_keys(c):
     c.expect = ("valid",)
 
 
+def f_files_to_include_unsorted(c):
+    """Several files to include, listed in an order that is not the sorted one: accepted, and the list stays as written."""
+    names = ["zz_last_helper.py", "aa_first_helper.py", "mm_middle_helper.py"]
+    for n_ in names:
+        with open(os.path.join(c.root, n_), "w") as f:
+            f.write("HELPER = %r\n" % n_)
+    c.cfg["files_to_include"] = list(c.cfg.get("files_to_include") or []) + names
+    c.expect = ("valid",)
+f_files_to_include_unsorted.applies = "client"
+
+
+def f_base_client_nested_definition(c):
+    """A custom base client whose class statement is not at module level (defined under try/except and if/else): the class is
+    defined in the file all the same."""
+    is_async = c.cfg.get("async_client", True)
+    dep = "async_base_client" if is_async else "base_client"
+    cls = "AsyncBaseClient" if is_async else "BaseClient"
+    with open(os.path.join(c.root, "my_nested_base.py"), "w") as f:
+        f.write("import sys\n\ntry:\n    from ariadne_codegen.client_generators.dependencies.%s import %s as _Base\nexcept ImportError:  # pragma: no cover\n"
+                "    _Base = object\n\nif sys.version_info >= (3, 9):\n\n    class MyNestedBase(_Base):\n        pass\n\nelse:\n\n"
+                "    class MyNestedBase(_Base):\n        legacy = True\n" % (dep, cls))
+    c.cfg["base_client_name"] = "MyNestedBase"
+    c.cfg["base_client_file_path"] = "my_nested_base.py"
+    c.cfg.pop("opentelemetry_client", None)
+    c.expect = ("valid",)
+f_base_client_nested_definition.applies = "client"
+
+
 def f_reordered_keys(c):
     items = list(c.cfg.items())
     scal = [(k, v) for k, v in items if not isinstance(v, dict)]
@@ -738,7 +766,8 @@ OP_RULES = ["unknown_field", "leaf_with_selection", "object_without_selection", 
 
 FAULTS: Dict[str, Callable] = {
     "control:no_fault": f_no_fault, "control:unknown_keys": f_unknown_keys, "control:unknown_lookalike_keys": f_unknown_lookalike_keys,
-    "control:reordered_keys": f_reordered_keys,
+    "control:reordered_keys": f_reordered_keys, "control:files_to_include_unsorted": f_files_to_include_unsorted,
+    "control:base_client_nested_definition": f_base_client_nested_definition,
     "control:graphql_comments": f_graphql_comments, "control:header_var_set": f_header_var_set, "control:deprecated_section": f_deprecated_section, "control:unrelated_tables": f_unrelated_tables,
     "control:upper_suffix": f_upper_suffix,
     "control:comments_boolean": f_comments_boolean,
